@@ -211,7 +211,7 @@ import os
 _SEED = int(os.environ.get("VERIF_SEED", "0") or 0)
 _reg(LZSym("sym_q", 4, 4, [4, 5], SIGMA_N, SIGMA_30))
 _reg(LZSym("sym_q5", 4, 5, [4, 5], SIGMA_N, SIGMA_30))
-_reg(LZSym("sym_t", 6, 6, [4, 5, 6], SIGMA_N, SIGMA_30))
+_reg(LZSym("sym_t", 5, 5, [4, 5, 6], SIGMA_N, SIGMA_30))
 QUICK = ["sym_q"]; THOROUGH = ["sym_q5", "sym_t"]
 for _nm, _ref in shape_refs(_SEED).items():
     for _kind in ("free", "subst", "window", "indel"):
